@@ -313,6 +313,15 @@ def main_pairs(pid, tier, seed, prop_codes, prop_mod, serving_files, what, mode,
         scope2 = run_shards(pid + "_scope2", HEADER + "\nFrom TV Require Import Oracle.ScopeCheck.", "pair_case", "in_inline_scope_general",
                             terms, shard_size=12)
         ck.coverage["pairs_in_scope_of_inline_theorem_with_sibling_systems"] = len(scope2)
+        # the any-depth theorem (C09_flatten_any_depth): the whole nesting is flattened by inlining one top-level
+        # system after the other; inside its scope the iterated inlining must be the flattening the flat run used (74)
+        hdr2 = HEADER + "\nFrom TV Require Import Oracle.ScopeCheck."
+        for key, fn in (("pairs_in_scope_of_flatten_any_depth_theorem", "in_flatten_all_scope"),
+                        ("pairs_of_depth_2_or_more_in_that_scope", "in_flatten_all_scope_deep"),
+                        ("pairs_with_interrupts_in_scope_of_its_script_form", "in_flatten_all_scope_stim")):
+            ck.coverage[key] = len(run_shards(pid + "_" + fn, hdr2, "pair_case", fn, terms, shard_size=12))
+        for i, codes in run_shards(pid + "_flat_all", hdr2, "pair_case", "check_inline_all_is_flatten", terms, shard_size=12).items():
+            bad.setdefault(i, []).extend(codes)
     ck.sample(dict(first=describe(pairs[-1][0]), second=describe(pairs[-1][1])))
     cases = [p[0] for p in pairs]
     report_codes(ck, pid, what, bad, cases, [r[0] for r in runs], prop_codes | {99},
